@@ -16,9 +16,12 @@ import BU.Properties.C20_GenCurve
 #print axioms C20Gen.gen_rol
 #print axioms C20Gen.gen_fi
 #print axioms C20Gen.gen_fi_rejects
+#print axioms C20Gen.gen_compress
+#print axioms C20Gen.gen_ripemd160
 #print axioms C20Gen.gen_point_add
 #print axioms C20Gen.gen_point_mul
 #print axioms C20Gen.gen_lift_x
 #print axioms C20Gen.gen_has_even_y
 #print axioms C20GenCurve.gen_mulG_add
 #print axioms C20GenCurve.gen_order
+#print axioms C20GenCurve.gen_ripemd160_eq_spec
